@@ -338,20 +338,29 @@ def run(ctx):
 
 
 def sample_from(ctx, js, path):
-    want = 3
+    """a few actual records: successes of three different composite shapes, one help text, one
+    rejected definition"""
+    seen = set()
+    extra = {"help": 1, "ctor": 1}
     with open(path) as f:
         for l in f:
-            if '"ok":true' in l and '"a":[' in l and l.count(",") > 8 and want > 0:
+            if '"ok":true' in l and '"rec"' in l and len(seen) < 3 and l.count(",") > 9 and l.count("{") > 5:
                 r = json.loads(l)
-                r["argv_text"] = argv_str(js, r["a"])
-                r["shape_name"] = js["shapes"][r["s"] - 1]["name"]
-                ctx.sample(r)
-                want -= 1
-            elif '"f":"ctor"' in l and '"ctor":"ok"' not in l and want > -2:
+                if r["s"] in seen or len(r["a"]) < 3:
+                    continue
+                seen.add(r["s"])
+            elif '"help":true' in l and extra["help"]:
+                r = json.loads(l)
+                extra["help"] = 0
+            elif '"f":"ctor"' in l and '"ctor":"ok"' not in l and extra["ctor"]:
                 ctx.sample(json.loads(l))
-                want -= 1 if want <= 0 else 0
-            if want <= -2:
-                break
+                extra["ctor"] = 0
+                continue
+            else:
+                continue
+            r["argv_text"] = argv_str(js, r["a"])
+            r["shape_name"] = js["shapes"][r["s"] - 1]["name"]
+            ctx.sample(r)
 
 
 def replay(ctx, payload):
